@@ -388,7 +388,17 @@ pub fn check_bytes(b: &[u8], strict: bool) -> Result<Seen, String> {
     }
 
     // get_module for the (first) table ids and ids past the table
-    let ids = (0..h.count.min(WALK)).chain([h.count, h.count + 1, usize::MAX as u64]);
+    // ids past the table include ones whose low 32 (16, 8) bits alone would point into it
+    let ids = (0..h.count.min(WALK)).chain([
+        h.count,
+        h.count + 1,
+        usize::MAX as u64,
+        1u64 << 32,
+        (1u64 << 32) + 1,
+        (3u64 << 32) + h.count.saturating_sub(1),
+        h.count + (1u64 << 16),
+        h.count.max(1) - 1 + (1u64 << 32),
+    ]);
     for id in ids {
         let what = format!("get_module({id})");
         let got = g!(what, bundle.get_module(id as usize));
@@ -474,7 +484,7 @@ fn check_model(m: &Model, lay: &Layout, obs: &mut Obs) -> Verdict {
             (_, Err(e)) => return Verdict::Fail(format!("get_module({i}) = Err({e}) inside the table of a well-formed bundle")),
         }
     }
-    for i in [count, count + 1, usize::MAX] {
+    for i in [count, count + 1, usize::MAX, 1usize << 32, (1usize << 32) + count.saturating_sub(1), (5usize << 32) + 1, count + (1usize << 16), count + 256] {
         match guard(|| bundle.get_module(i).map(|m| m.map(|m| m.data().len()))) {
             Ok(Err(_)) => {}
             Ok(Ok(r)) => return Verdict::Fail(format!("get_module({i}) = Ok({r:?}) although the table has {count} slots")),
@@ -522,6 +532,7 @@ fn check_model(m: &Model, lay: &Layout, obs: &mut Obs) -> Verdict {
     obs.class_if(m.startup.len() == 1, "startup-1-byte");
     obs.class_if(m.startup.len() == 64, "startup-64-bytes");
     obs.class_if(count == 8, "8-slots");
+    obs.class_if(count > 8, ">8-slots");
     if present.len() >= 2 && empties >= 1 && shuffled {
         obs.nontrivial();
     }
@@ -757,8 +768,11 @@ fn model_strategy() -> BoxedStrategy<Model> {
                 b
             }),
         ],
-        vec(proptest::option::weighted(0.7, payload()), 0..=8),
-        prop_oneof![1 => Just(vec![0u16; 8]), 4 => vec(any::<u16>(), 8)],
+        prop_oneof![
+            10 => vec(proptest::option::weighted(0.7, payload()), 0..=8),
+            1 => vec(proptest::option::weighted(0.6, payload()), 9..=48),
+        ],
+        prop_oneof![1 => Just(vec![0u16; 8]), 4 => vec(any::<u16>(), 8), 1 => vec(any::<u16>(), 48)],
         prop_oneof![2 => Just(vec![0u8; 9]), 1 => vec(0u8..4, 9)],
         prop_oneof![Just(0u8), Just(0xaau8), any::<u8>()],
     )
@@ -836,7 +850,7 @@ pub fn subs() -> Vec<Sub> {
 
 pub const DEF: PropertyDef = PropertyDef {
     id: "C20",
-    rule: "wellformed: model bundles (0..8 table slots, empty slots anywhere, startup code 1..64 bytes, payloads 0..40 arbitrary bytes, \
+    rule: "wellformed: model bundles (0..8, occasionally 9..48 table slots, empty slots anywhere, startup code 1..64 bytes, payloads 0..40 arbitrary bytes, \
            shuffled physical order, optional padding) written by the harness' own writer; non-trivial = >= 2 present modules, >= 1 empty slot \
            and physical order != id order. truncations: every proper prefix of such a bundle inside one case (inner evaluations); non-trivial = \
            some prefix where one module is still served and another designated range is cut off. field_edits: one 32-bit header/table field \
@@ -847,7 +861,7 @@ pub const DEF: PropertyDef = PropertyDef {
     assumptions: &[
         "the payload range designated by an entry is offset .. offset + length - 1 relative to 12 + 8 x module_count (the trailing NUL itself is not required to be present or inside the buffer; such cases are counted in the class module-served-without-its-NUL)",
         "for byte strings that are not well-formed bundles an Err is accepted even when the designated range lies inside the buffer (e.g. an empty range that starts exactly at the buffer end); only well-formed bundles must be served completely",
-        "get_module is queried for table ids below min(module_count, 64) and for module_count, module_count + 1, usize::MAX; the iterator is walked for at most 64 items",
+        "get_module is queried for table ids below min(module_count, 64) and for module_count, module_count + 1, usize::MAX and ids of the form m*2^32 + k, count + 2^16, count + 256; the iterator is walked for at most 64 items",
         "64-bit usize (12 + 8 x 2^32 does not overflow)",
     ],
     subs,
